@@ -485,7 +485,7 @@ func init() {
 						s.OK(key, p, "range loop ("+cm+")")
 						continue
 					}
-					if f == bp && sm.An != nil && l.Header.Comment != "" && isMainLoop(sm, c, l) {
+					if f == bp && sm.An != nil && isMainLoop(sm, c, l) {
 						s.OK(key, p, "main loop of the state machine: ranking established by SM-rank")
 						continue
 					}
@@ -601,10 +601,19 @@ func isMainLoop(sm *smModel, c *Ctx, l *ssaLoop) bool {
 		}
 	}
 	// and it contains the loop head call
-	for _, ins := range l.Header.Instrs {
-		if call, ok := ins.(*ssa.Call); ok {
-			if cl := call.Common().StaticCallee(); cl != nil && cl.Name() == "nextCodePoint" {
-				return true
+	heads := []*ssa.BasicBlock{l.Header}
+	for _, sc := range l.Header.Succs {
+		if l.Blocks[sc] {
+			heads = append(heads, sc) // the loop tests its condition first: the head call opens the body
+		}
+	}
+	for _, hb := range heads {
+		for _, ins := range hb.Instrs {
+			if call, ok := ins.(*ssa.Call); ok {
+				// the head call of the machine stands before the state switch (loops inside a state stand in it)
+				if cl := call.Common().StaticCallee(); cl != nil && cl.Name() == "nextCodePoint" && call.Pos() < sm.An.sw.Pos() {
+					return true
+				}
 			}
 		}
 	}
